@@ -156,6 +156,7 @@ R = {
     "prov_fragment_text": tiered(round7.prov_fragment_text),
     "key_parity_of_distance": tiered(round7.key_parity_of_distance),
     "prov_valence_choice": tiered(round7.prov_valence_choice),
+    "key_edge_orientation": tiered(round7.key_edge_orientation),
     "sent_numeric_attrs": tiered(extra.sent_numeric_attrs),
     "ord_complete_loops": tiered(extra.ord_complete_loops),
     "own_mutable_defaults_layout": named("own_mutable_defaults_layout", own.own_mutable_defaults, "quick", tuple(own.SKIP_MODULES), 2),
@@ -380,7 +381,7 @@ _ROUND8_TEXT = {
     "C01": "no container attribute of the resolver that is filled while a level is resolved survives into the next level",
     "C03": "no container attribute filled per level survives into the next level; no method reachable from resolve() writes an edge of the coarse graph",
     "C06": "the per-node graphs are rebuilt on every path of every level; no method reachable from resolve() writes an edge of the coarse graph",
-    "C07": "the order symbol of a ring bond and its marker are written to the same string (a deferred %nn marker takes its symbol with it)",
+    "C07": "the order symbol of a ring bond and its marker are written to the same string (a deferred %nn marker takes its symbol with it); ring edges are found on unordered pairs, not by membership in a directed traversal result",
     "C09": "no container attribute of the resolver that is filled while a level is resolved survives into the next level",
     "C11": "no container attribute of the resolver that is filled while a level is resolved survives into the next level",
     "C12": "no method reachable from resolve() writes an edge of the coarse graph",
@@ -421,6 +422,7 @@ _ROUND7 = {
     "prov_fragment_text": (["C06", "C13", "C08", "C01"], {"PROV.fragment-text": 2}),
     "key_parity_of_distance": (["C19"], {}),
     "prov_valence_choice": (["C09"], {}),
+    "key_edge_orientation": (["C07", "C08"], {}),
     # the matching convention the user asked for has to arrive at the matcher through every constructor (C03: "both conventions")
     "sib_constructors": (["C03"], {}),
     "idx_branch_stop": (["C04"], {"IDX.branch-stop": 1}),
